@@ -675,3 +675,22 @@ def g_gate_gen_local_state(rng, level=0, n_random=150):
         g = ci.CliffordGate(*q)
         g.generator = pa.Pauli(bits(rng, 2 * len(q)), int(2 * rng.integers(0, 2)))
         yield {'self': g, 'obj': _rand_state(rng, N)}
+
+
+@gen(PA + 'PauliList.transform_by#mask_state')
+def g_tr_mask_state(rng, level=0, n_random=200):
+    for k in range(n_random):
+        N = 1 + k % 4
+        mask = _rand_mask(rng, N, k // 4)
+        yield {'self': _rand_state(rng, N), 'clifford_map': _rand_map(rng, int(mask.sum())), 'mask': mask}
+
+
+@gen(CI + 'CliffordGate.forward#map_local_state')
+def g_gate_map_local_state(rng, level=0, n_random=150):
+    import pyclifford.circuit as ci
+    for _ in range(n_random):
+        N = int(rng.integers(2, 5))
+        q = _local_qubits(rng, N)
+        g = ci.CliffordGate(*q)
+        g.forward_map = _rand_map(rng, len(q))
+        yield {'self': g, 'obj': _rand_state(rng, N)}
